@@ -5,7 +5,8 @@ from vlib.common import REPO as REPO_DIR
 
 from mirsym.api import Ob, guard, StatePath, Opaque, Agg, Ref, vname, ret_shape
 from mirsym.engine import State
-from mirsym.values import Tok, SeqV, MapV
+from mirsym.values import Tok, SeqV, MapV, StrV
+from mirsym.api import ev_is
 from mirsym import models as M
 from props.memharness import *
 
@@ -634,5 +635,83 @@ def find_message_scoped(tier, oid='O13', prefix='O13'):
                 ob.require(srepr(got) == srepr(want), f'{prefix}/memory-find-message-other-groups-copy',
                            f'find_message_by_event_id for group {grp} returns the copy of ANOTHER group that shares the event id (saved last: {last}): re-saving it (the own-echo confirmation) rewrites the other group\'s message', p)
     ob.r.bounds = {'groups': 2, 'messages': 'one per group under the same symbolic event id', 'last saved': 'either'}
+    ob.r.assumptions += ASSUMPTIONS
+    return ob.done(cases=total)
+
+
+@guard
+def last_message_head(tier, oid='O14', prefix='O14'):
+    """memory last_message(sort) is the head of the documented order for that sort mode"""
+    NMAX = 2 if tier == 'quick' else 3
+    ob = Ob(oid, f'memory backend last_message(sort): for 1..{NMAX} stored messages with symbolic sort keys (ties on any key included) the result is the FIRST message of the documented newest-first '
+                 'order of that sort mode (created_at, processed_at, id / processed_at, created_at, id), i.e. the head of messages(sort)', crates=CRATES,
+            inline={'display_order_cmp', 'processed_at_order_cmp', 'compare_display_keys', 'compare_processed_at_keys'}, loop_bound=10)
+    f = ob.prog.find(MEM, 'groups::last_message')
+    G = Tok('g', 0)
+    so_ty = 'mdk_storage_traits::groups::MessageSortOrder'
+    total = n = 0
+    for k in range(1, NMAX + 1):
+        for mode in ('CreatedAtFirst', 'ProcessedAtFirst'):
+            st = State()
+            ms = [message(f'm{i}', G) for i in range(k)]
+            for a, b in itertools.combinations(ms, 2):
+                st.pc.append(mfield(a, 'id').fields[0] != mfield(b, 'id').fields[0])
+            caches = {'groups_cache': MapV([[G, group('g0', G)]], 'LruCache'),
+                      'messages_by_group_cache': MapV([[G, MapV([[mfield(m, 'id'), m] for m in ms], 'HashMap')]], 'LruCache')}
+            sref = storage(st, caches)
+            so = Agg('enum', so_ty, so_ty + '::' + mode, [])
+            for p in ob.explore(f, [sref, Ref(st.temp(G), ()), so], st):
+                total += 1
+                if p.kind == 'panic':
+                    ob.require(False, f'{prefix}/memory-last-message-panic', p.msg, p); continue
+                if not ob.require(vname(p.ret) == 'Ok' and vname(p.ret.fields[0]) == 'Some', f'{prefix}/memory-last-message-missing', f'last_message of a non-empty group returns {srepr(p.ret)[:60]}', p):
+                    continue
+                n += 1
+                got = M.deref_all(ob.eng, p.st, p.ret.fields[0].fields[0])
+                gid = mfield(got, 'id').fields[0]
+                ob.prove_all(p, [(z3.Implies(gid == mfield(x, 'id').fields[0], z3.Not(before(mode, y, x))), f'{prefix}/memory-last-message-not-head',
+                                  f'last_message({mode}) returns a message that another stored message precedes in the documented {mode} order (a tie is broken by the wrong key)')
+                                 for x in ms for y in ms if x is not y] +
+                                [(z3.Or([gid == mfield(x, 'id').fields[0] for x in ms]), f'{prefix}/memory-last-message-foreign', 'last_message returns something that is not a stored message of the group')])
+    ob.require(n >= 4, f'{prefix}/vacuity', f'results compared: {n}')
+    ob.r.bounds = {'stored messages': f'1..{NMAX}', 'sort keys': 'all u64 timestamps, 256-bit ids (distinct ids)', 'sort mode': 'both'}
+    ob.r.assumptions += ASSUMPTIONS
+    return ob.done(cases=total)
+
+
+@guard
+def epoch_hint_lookup(tier, oid='O15', prefix='O15'):
+    """memory find_message_epoch_by_tag_content: every message of the group that has an epoch is looked at, whatever its state"""
+    ob = Ob(oid, 'memory backend find_message_epoch_by_tag_content(g, s): the epoch of a message of group g whose tags contain s is returned whatever the state of that message '
+                 '(a sender\'s own announcement is still Created until its echo arrives); None only if no message with an epoch matches; messages of other groups are not consulted',
+            crates=CRATES, loop_bound=8)
+    f = ob.prog.find(MEM, 'messages::find_message_epoch_by_tag_content')
+    G, H = Tok('g', 0), Tok('g', 1)
+    total = n_some = n_none = 0
+    st = State()
+    m0 = message('m0', G, epoch=M.SOME(z3.BitVec('m0_epoch', 64)))
+    h0 = message('h0', H, epoch=M.SOME(z3.BitVec('h0_epoch', 64)))
+    caches = {'groups_cache': MapV([[G, group('g0', G)], [H, group('h0g', H)]], 'LruCache'),
+              'messages_by_group_cache': MapV([[G, MapV([[mfield(m0, 'id'), m0]], 'HashMap')], [H, MapV([[mfield(h0, 'id'), h0]], 'HashMap')]], 'LruCache')}
+    sref = storage(st, caches)
+    for p in ob.explore(f, [sref, Ref(st.temp(G), ()), Ref(st.temp(StrV(sym='needle')), ())], st):
+        total += 1
+        if p.kind == 'panic':
+            ob.require(False, f'{prefix}/memory-epoch-hint-panic', p.msg, p); continue
+        ct = [e for e in p.trace if ev_is(e, 'contains')]
+        ser = [e for e in p.trace if ev_is(e, 'to_string') and 'serde_json' in e.fn]
+        if vname(p.ret) != 'Ok':
+            continue
+        res = p.ret.fields[0]
+        if vname(res) == 'Some':
+            n_some += 1
+            ob.prove(p, res.fields[0] == z3.BitVec('m0_epoch', 64), f'{prefix}/memory-epoch-hint-wrong-epoch', 'the epoch returned is not the epoch of the matching message of the asking group')
+        else:
+            n_none += 1
+            ob.require(bool(ct) and ob.eng.prove(p, z3.Not(ct[0].ret))[0], f'{prefix}/memory-epoch-hint-message-skipped',
+                       'None is returned although the group\'s message (which has an epoch) was never compared with the search term: it is filtered out by something else '
+                       '(e.g. its state), so the sender of a not-yet-echoed announcement finds no epoch for its own file', p)
+    ob.require(n_some >= 1 and n_none >= 1, f'{prefix}/vacuity', f'Some paths {n_some}, None paths {n_none}')
+    ob.r.bounds = {'messages': 'one in the asking group (symbolic state, tags, epoch), one in another group', 'search term': 'symbolic'}
     ob.r.assumptions += ASSUMPTIONS
     return ob.done(cases=total)
